@@ -75,7 +75,7 @@ PROPS = {
     'C18': dict(
         theorem_files=['C18', 'GoTypes'],
         judge='C18', judge_module='Judge.J13', judge_fn='judge_C18',
-        cases=dict(quick=3000, thorough=60000),
+        cases=dict(quick=2000, thorough=60000),
         rule='the C03 problem generator (CNF, cardinality, PB through the constructors and through OPB texts, with and without cost '
              'function, incl. problems decided at parse time) x printers Problem.CNF (CNF problems), Problem.PBString, '
              'Solver.PBString before and after Solve; the printed text is read by the Coq readers parse_dimacs / parse_opb and must '
